@@ -233,7 +233,9 @@ static std::vector<Subject> subjects() {
     v.push_back({"GapMin(budget)", true, [](uint64_t ps, int mode) {
         A::POMDP::GapMin s(0.01, 3);
         A::Verif::anytimeObserver = [](const A::Verif::AnytimeSnapshot & sn) { return sn.iteration < 3; };
-        auto run = [&](uint64_t seed, int extra) { auto p = pomdpOf(seed, extra); auto m = toDense(p); A::Vector b = A::Vector::Constant(p.S, 1.0 / p.S); return s(m, b); };
+        // smallest size class only (S = 2, A, O in 1..2): on larger random POMDPs a single GapMin iteration can take minutes under ASan
+        // (thorough seed 1 cases 1758, 2038 were killed after 120 s)
+        auto run = [&](uint64_t seed, int extra) { (void)extra; Rng rr(seed); auto p = randomPomdp(rr, 2, 1 + rr.below(2), 1 + rr.below(2)); auto m = toDense(p); A::Vector b = A::Vector::Constant(p.S, 1.0 / p.S); return s(m, b); };
         if (mode == 1) run(ps ^ 0xABCDEF, 0);   // another problem of the small size class (usually other sizes): one size up, single GapMin iterations can take minutes under ASan
         if (mode == 2) run(ps, 0);
         // mode 3 (same-size other problem) is not run for GapMin: under ASan some random POMDPs take minutes per iteration (see C03)
